@@ -11,12 +11,14 @@
 //                           else the operation is finished
 //              dropDelete = `delete modeMemory` and finish (no-op if already finished)
 //   copy s h : copyCS     = the whole copy construction
-//   malloc n : countRead  = run device::malloc until just before `bytesAllocated += n`
-//              countWrite = the update and the rest (the += itself cannot be split by a yield point)
-//   free n   : countRead  = no-op ; countWrite = the whole release
+//   malloc n : childCS    = run device::malloc (buffer linked into the device's ring) until just before
+//                           `bytesAllocated += n`;  countRead = no-op (the += cannot be split by a yield
+//                           point);  countWrite = the update and the rest
+//   free n   : childCS, countRead = no-op ; countWrite = the whole release
 #include "replay_core.hpp"
 #include <occa.hpp>
 #include <occa/internal/core/memory.hpp>
+#include <occa/internal/core/device.hpp>
 #include <occa/internal/utils/verif.hpp>
 #include <semaphore.h>
 #include <pthread.h>
@@ -132,6 +134,7 @@ int main(int argc, char **argv) {
       handles[init[i].str()] = m;
     }
     const long base = (long)device.memoryAllocated();
+    const long baseChildren = (long)device.getModeDevice()->memoryRing.length();
     const long serial = v::serialOf(v::kMemory, first->getModeMemory());
     // threads
     std::map<std::string, Worker *> ws;
@@ -163,7 +166,8 @@ int main(int argc, char **argv) {
       else if (act == "dropCheck") { last = false; }
       else if (act == "dropDelete") { last = true; run = !opFinished; }
       else if (act == "copyCS") last = true;
-      else if (act == "countRead") { last = false; run = (w.prog[oi][0].str() == "malloc"); }
+      else if (act == "childCS") { last = false; run = (w.prog[oi][0].str() == "malloc"); }   // malloc: runs up to the counter update
+      else if (act == "countRead") { last = false; run = false; }                                // the += cannot be split
       else if (act == "countWrite") { last = true; run = !opFinished; }
       if (run) {
         if (opFinished) { note = "code finished operation " + std::to_string(oi) + " of " + w.name + " before model action " + act; stuck = true; break; }
@@ -189,6 +193,7 @@ int main(int argc, char **argv) {
                       ",\"anomalies\":" + std::to_string(v::anomalies()) +
                       ",\"liveMemory\":" + std::to_string(v::live(v::kMemory)) +
                       ",\"liveHandles\":" + std::to_string(liveHandles) +
+                      ",\"children\":" + std::to_string((long)device.getModeDevice()->memoryRing.length() - baseChildren) +
                       ",\"bytes\":" + std::to_string((long)device.memoryAllocated() - base) + "}";
     rc::emit(out);
     for (auto &kv : handles) if (kv.second) { delete kv.second; kv.second = nullptr; }
